@@ -271,3 +271,142 @@ Proof.
   intros W rt a st Ha. unfold ea_read, seg_at. rewrite shiftr4. unfold ABITS, NSEG in *.
   destruct (a / 16 <? 1048576) eqn:E; [lia|reflexivity].
 Qed.
+
+(* ================================================================== Part 6 *)
+(* the byte-wise loop: for each address in turn, EaRead it if attached and store the byte *)
+Fixpoint dump_bytes (cnt : nat) (W : world) (rt : routing) (a i : Z) (data : list Z) (st : state) : res (list Z) :=
+  match cnt with
+  | O => Ok data st
+  | S c =>
+      match seg_at rt a with
+      | None => dump_bytes c W rt (a + 1) (i + 1) data st
+      | Some _ =>
+          match ea_read W rt a st with
+          | Panic st' => Panic st'
+          | Ok b st' => if i <? zlen data then dump_bytes c W rt (a + 1) (i + 1) (upd data i b) st' else Panic st'
+          end
+      end
+  end.
+
+Definition with_count {A B} (f : A -> B) (r : res A) : res B :=
+  match r with Ok d st => Ok (f d) st | Panic st => Panic st end.
+
+Lemma dump_bytes_split : forall c1 c2 W rt a i data st,
+  dump_bytes (c1 + c2) W rt a i data st =
+  match dump_bytes c1 W rt a i data st with
+  | Ok d st' => dump_bytes c2 W rt (a + Z.of_nat c1) (i + Z.of_nat c1) d st'
+  | Panic st' => Panic st'
+  end.
+Proof.
+  induction c1 as [|c1 IH]; intros c2 W rt a i data st.
+  - cbn [plus dump_bytes Z.of_nat]. now rewrite !Z.add_0_r.
+  - cbn [plus dump_bytes]. rewrite Nat2Z.inj_succ.
+    replace (a + Z.succ (Z.of_nat c1)) with (a + 1 + Z.of_nat c1) by lia.
+    replace (i + Z.succ (Z.of_nat c1)) with (i + 1 + Z.of_nat c1) by lia.
+    destruct (seg_at rt a).
+    + destruct (ea_read W rt a st) as [b st'|st']; [|reflexivity].
+      destruct (i <? zlen data); [apply IH|reflexivity].
+    + apply IH.
+Qed.
+
+(* one segment: the inner loop started at n with all its addresses in one block = the byte-wise loop *)
+Lemma dump_inner_bytes : forall cnt fuel W rt sopt n a i e data st,
+  (cnt <= fuel)%nat ->
+  Z.of_nat cnt = Z.max 0 (Z.min (16 - n) (e - a + 1)) ->
+  0 <= a -> a + Z.of_nat cnt <= 4294967295 ->
+  (forall j, 0 <= j < Z.of_nat cnt -> seg_at rt (a + j) = sopt) ->
+  dump_inner fuel W sopt n a i e data st =
+  with_count (fun d => (a + Z.of_nat cnt, i + Z.of_nat cnt, d)) (dump_bytes cnt W rt a i data st).
+Proof.
+  induction cnt as [|c IH]; intros fuel W rt sopt n a i e data st Hfuel Hcnt Ha Hmax Hseg.
+  - cbn [dump_bytes with_count Z.of_nat]. rewrite !Z.add_0_r.
+    destruct fuel as [|f]; cbn [dump_inner]; [reflexivity|].
+    destruct ((a <=? e) && (n <? 16)) eqn:E; [|reflexivity]. cbn [Z.of_nat] in Hcnt. lia.
+  - destruct fuel as [|f]; [lia|]. cbn [dump_inner dump_bytes].
+    rewrite Nat2Z.inj_succ in *.
+    destruct ((a <=? e) && (n <? 16)) eqn:E; [|lia].
+    assert (Hs0 : seg_at rt a = sopt) by (rewrite <- (Hseg 0) by lia; f_equal; lia).
+    assert (Hu : u32 (a + 1) = a + 1) by (unfold u32; apply Z.mod_small; lia).
+    rewrite Hu.
+    replace (a + Z.succ (Z.of_nat c)) with (a + 1 + Z.of_nat c) by lia.
+    replace (i + Z.succ (Z.of_nat c)) with (i + 1 + Z.of_nat c) by lia.
+    assert (Hseg' : forall j, 0 <= j < Z.of_nat c -> seg_at rt (a + 1 + j) = sopt).
+    { intros j Hj. replace (a + 1 + j) with (a + (j + 1)) by lia. apply Hseg. lia. }
+    rewrite Hs0. destruct sopt as [m|].
+    + unfold ea_read. rewrite Hs0.
+      destruct (mem_read W m a st) as [b st'|st']; [|reflexivity].
+      destruct (i <? zlen data); [|reflexivity].
+      apply IH; try assumption; lia.
+    + apply IH; try assumption; lia.
+Qed.
+
+(* all segments.  Invariant at the head of the k-loop: a <= end, k is a's block, and the inner counter
+   starts at a's position inside the block (always so in the repaired code; in today's code only when a
+   is aligned -- which it is from the second segment on) *)
+Lemma dump_outer_bytes : forall fuel v W rt k a i e data st,
+  0 <= a <= e -> e < ABITS -> k = a / 16 ->
+  dump_n0 v a = a mod 16 ->
+  e / 16 - k + 1 <= Z.of_nat fuel ->
+  dump_outer fuel v W rt k (e / 16) a i e data st =
+  with_count (fun d => (i + (e - a + 1), d)) (dump_bytes (Z.to_nat (e - a + 1)) W rt a i data st).
+Proof.
+  induction fuel as [|f IH]; intros v W rt k a i e data st Hae He Hk Hn0 Hfuel.
+  - unfold ABITS in *. cbn [Z.of_nat] in Hfuel. lia.
+  - unfold ABITS in *. cbn [dump_outer].
+    destruct (k <=? e / 16) eqn:Ek; [|lia].
+    set (cz := Z.min (16 - a mod 16) (e - a + 1)).
+    assert (Hcz : 1 <= cz <= 16) by (unfold cz; lia).
+    rewrite (dump_inner_bytes (Z.to_nat cz) 16 W rt (rt k) (dump_n0 v a) a i e data st).
+    2:{ lia. }
+    2:{ rewrite Hn0. fold cz. lia. }
+    2:{ lia. }
+    2:{ lia. }
+    2:{ intros j Hj. unfold seg_at. rewrite shiftr4.
+        assert (Hb : (a + j) / 16 = k) by (unfold cz in *; lia).
+        rewrite Hb. unfold NSEG. destruct (k <? 1048576) eqn:E; [reflexivity|lia]. }
+    replace (Z.to_nat (e - a + 1)) with (Z.to_nat cz + Z.to_nat (e - a + 1 - cz))%nat by (unfold cz in *; lia).
+    rewrite dump_bytes_split. rewrite !Z2Nat.id by lia.
+    destruct (dump_bytes (Z.to_nat cz) W rt a i data st) as [d st'|st']; cbn [with_count]; [|reflexivity].
+    destruct (Z_le_gt_dec (a + cz) e) as [Hmore|Hdone].
+    + (* the segment was copied to its end; a + cz is the first address of block k+1 *)
+      assert (Hcz2 : cz = 16 - a mod 16) by (unfold cz; lia).
+      rewrite (IH v W rt (k + 1) (a + cz) (i + cz) e d st').
+      * replace (e - (a + cz) + 1) with (e - a + 1 - cz) by lia.
+        destruct (dump_bytes _ W rt (a + cz) (i + cz) d st'); cbn [with_count]; [|reflexivity].
+        f_equal. f_equal. lia.
+      * lia.
+      * unfold ABITS. lia.
+      * lia.
+      * replace ((a + cz) mod 16) with 0 by lia. destruct v; cbn [dump_n0]; [reflexivity|].
+        rewrite land15. lia.
+      * lia.
+    + (* end reached inside this segment: it was the last one *)
+      assert (Hz : e - a + 1 - cz = 0) by (unfold cz in *; lia).
+      rewrite Hz. cbn [Z.to_nat dump_bytes with_count].
+      assert (Hlast : k = e / 16) by (unfold cz in *; lia).
+      destruct f as [|f']; cbn [dump_outer].
+      * f_equal. f_equal. lia.
+      * destruct (k + 1 <=? e / 16) eqn:E2; [lia|]. f_equal. f_equal. lia.
+Qed.
+
+(* EaDump = the byte-wise loop: for the repaired code whatever the alignment of start, for today's code
+   when start is 16-byte aligned *)
+Theorem ea_dump_bytewise : forall v W rt s e data st,
+  0 <= s <= e -> e < ABITS ->
+  (v = DumpRepaired \/ s mod 16 = 0) ->
+  ea_dump v W rt s e data st =
+  with_count (fun d => (e - s + 1, d)) (dump_bytes (Z.to_nat (e - s + 1)) W rt s 0 data st).
+Proof.
+  intros v W rt s e data st Hse He Hv. unfold ea_dump.
+  rewrite !seg_mask by (unfold ABITS in *; lia).
+  rewrite (dump_outer_bytes _ v W rt (s / 16) s 0 e data st); try assumption; try reflexivity.
+  - destruct Hv as [Hv|Hv]; [subst v; cbn [dump_n0]; apply land15|].
+    destruct v; cbn [dump_n0]; [lia|apply land15].
+  - lia.
+Qed.
+
+Corollary ea_dump_repaired_bytewise : forall W rt s e data st,
+  0 <= s <= e -> e < ABITS ->
+  ea_dump DumpRepaired W rt s e data st =
+  with_count (fun d => (e - s + 1, d)) (dump_bytes (Z.to_nat (e - s + 1)) W rt s 0 data st).
+Proof. intros. apply ea_dump_bytewise; auto. Qed.
